@@ -55,20 +55,31 @@ def jobs(tier, seed):
             out.append({'fn': 'ratios_sym', 'cfg': {'recv': recv, 'n': 2, 'disperse': True, 'amount': amt,
                                                     'mode': 'ROUND_HALF_EVEN', 'flav': 'dec', 'unnormalised': True},
                         'opts': {'linearise': True, 'feas_ms': 1000}})
-    vecs = VECTORS if tier == 'thorough' else VECTORS[:6]
     j = 0
     for recv in ('dv', 'money', 'user', 'mass'):
-        for vec in vecs:
+        for vec in VECTORS:
+            n = len(vec)
+            if tier == 'quick':
+                # the amount-symbolic slice is the expensive one (mixed integer / real, ~2 min per n = 3 job):
+                # quick keeps n <= 2 everywhere and n = 3 for one vector on DataVolume and Money
+                if n > 3 or (n == 3 and not (vec == ['1', '1', '1'] and recv in ('dv', 'money'))):
+                    if recv != 'mass':
+                        continue
+            elif n > 4:
+                continue
             for disperse in ((True, False) if (tier == 'thorough' or j % 3 == 0) else (True,)):
                 out.append({'fn': 'amount_sym', 'cfg': {'recv': recv, 'ratios': vec, 'disperse': disperse,
                                                         'mode': modes[j % len(modes)]},
-                            'opts': {'feas_ms': 1000, 'budget_s': 150 if tier == 'quick' else 900}})
+                            'opts': {'feas_ms': 1000, 'budget_s': 170 if tier == 'quick' else 1200}})
                 j += 1
     for qv in QVECTORS:
-        out.append({'fn': 'amount_sym', 'cfg': {'recv': 'dv', 'qratios': qv, 'disperse': True, 'mode': 'ROUND_HALF_EVEN'},
-                    'opts': {'feas_ms': 1000}})
+        if tier == 'thorough':
+            out.append({'fn': 'amount_sym', 'cfg': {'recv': 'dv', 'qratios': qv, 'disperse': True, 'mode': 'ROUND_HALF_EVEN'},
+                        'opts': {'feas_ms': 1000, 'budget_s': 1200}})
         out.append({'fn': 'amount_sym', 'cfg': {'recv': 'mass', 'qratios': qv, 'disperse': True, 'mode': 'ROUND_HALF_EVEN'},
                     'opts': {'feas_ms': 1000}})
+    out.append({'fn': 'amount_sym', 'cfg': {'recv': 'dv', 'qratios': QVECTORS[1], 'disperse': True, 'mode': 'ROUND_HALF_EVEN'},
+                'opts': {'feas_ms': 1000}})
     out.append({'fn': 'bad_ratios', 'cfg': {}})
     out.append({'fn': 'ratios_sym', 'cfg': {'recv': 'dv', 'n': 2, 'disperse': True, 'amount': '10', 'mode': 'ROUND_HALF_EVEN',
                                             'flav': 'frac', 'canary': True}, 'opts': {'linearise': True}, 'canary': True})
